@@ -331,15 +331,16 @@ def timescales_job(lengths, lag):
     return path
 
 
-def ensemble_job(n, steps, observable=False):
+def ensemble_job(n, steps, observable=False, int_pops=False):
     sd = loader.load('enspara.msm.synthetic_data')
 
     def path(ctx):
         T = [[core.fresh_real('t') for _ in range(n)] for _ in range(n)]
-        p0 = [core.fresh_real('p') for _ in range(n)]
+        # int_pops: the start vector is an INTEGER array (walker counts / a one-hot indicator): propagation is still real-valued
+        p0 = [core.fresh_int('p', 0, None) if int_pops else core.fresh_real('p') for _ in range(n)]
         ob = [core.fresh_real('o') for _ in range(n)] if observable else None
         A = funcs.np_array(T, dtype=float)
-        P = funcs.np_array(p0, dtype=float)
+        P = funcs.np_array(p0, dtype=int if int_pops else float)
         O = funcs.np_array(ob, dtype=float) if ob else None
         A0, P0 = A.copy(), P.copy()
         exc = None
@@ -375,10 +376,11 @@ def ensemble_job(n, steps, observable=False):
 
         def witness(model):
             Tc = model_matrix(model, T)
-            pc = [float(ev(model, x)) for x in p0]
+            pc = [(int(ev(model, x)) if int_pops else float(ev(model, x))) for x in p0]
             oc = [float(ev(model, x)) for x in ob] if ob else None
-            out = {'inputs': {'T': Tc, 'init_pops': pc, 'n_steps': steps, 'observable_per_state': oc}}
-            Ac, Pc = np.array(Tc), np.array(pc)
+            out = {'inputs': {'T': Tc, 'init_pops': pc, 'init_pops_dtype': 'int64' if int_pops else 'float64', 'n_steps': steps,
+                              'observable_per_state': oc}}
+            Ac, Pc = np.array(Tc), np.array(pc, dtype=int if int_pops else float)
             with core.concrete_mode():
                 try:
                     pf2, ob2 = sd.synthetic_ensemble(Ac, Pc, steps, observable_per_state=np.array(oc) if oc else None)
@@ -443,4 +445,6 @@ def jobs(tier):
         for st in ((1, 2, 3) if q else (1, 2, 3, 4, 5)):
             add('ensemble_job', 'ensemble[n=%d,steps=%d]' % (n, st), n=n, steps=st)
         add('ensemble_job', 'ensemble[n=%d,steps=3,observable]' % n, n=n, steps=3, observable=True)
+        add('ensemble_job', 'ensemble[n=%d,steps=3,integer start vector]' % n, n=n, steps=3, int_pops=True)
+        add('ensemble_job', 'ensemble[n=%d,steps=2,integer start vector,observable]' % n, n=n, steps=2, int_pops=True, observable=True)
     return J
